@@ -22,9 +22,12 @@ def num(x):
 
 
 class Model:
-    def __init__(self, program, triggers=None):
+    def __init__(self, program, triggers=None, resolver=None):
+        self.resolver = resolver     # fn(notification, entry time, act, pc) -> trigger time, for log-dependent kinds
         self.start = program.get('start', 0)
         self.ops = {}       # (act, pc) -> (s, e, deadline)
+        self.pending_children = {}
+        self.pending_volatile = {}
         self.begins = {}    # act -> (start time, deadline)
         self.program = program
         self.triggers = triggers or {}   # extra notification kinds: name -> fn(t0) -> trigger time
@@ -69,6 +72,11 @@ class Model:
             t = e
         return t
 
+    def volatile_children(self, pending, scope_end):
+        for child, script, cs in pending:
+            self.begins[child] = (cs, scope_end)
+            self.ends[child] = self.block(child, script, (), cs, scope_end)
+
     def op(self, act, op, pc, s, deadline):
         k = op[0]
         if k == 'D':
@@ -80,25 +88,29 @@ class Model:
         if k == 'ETERNITY':
             return NEVER
         if k == 'WAIT':
-            return self.trigger(op[1], s)
-        if k in ('NOP', 'PROBE', 'CANCEL'):
+            return self.resolver(op[1], s, act, pc) if self.resolver else self.trigger(op[1], s)
+        if k in ('NOP', 'PROBE', 'CANCEL', 'SET', 'TADD', 'TSET'):
             return s
         if k == 'UNTIL':
             name, notif, body = op[1], op[2], op[3]
-            tr = self.trigger(notif, s)
+            tr = self.resolver(notif, s, act, pc) if self.resolver else self.trigger(notif, s)
             inner = min(deadline, tr)
-            self.pending_children = getattr(self, 'pending_children', {})
-            self.pending_children[pc] = []
+            self.pending_children[(act, pc)] = []
+            self.pending_volatile[(act, pc)] = []
             body_end = self.block(act, body, pc, s, inner)
-            kids = self.pending_children.pop(pc)
-            return min(tr, max([body_end] + kids))
+            kids = self.pending_children.pop((act, pc))
+            end = min(tr, max([body_end] + kids))
+            self.volatile_children(self.pending_volatile.pop((act, pc)), min(inner, end))
+            return end
         if k == 'SCOPE':
             name, body = op[1], op[2]
-            self.pending_children = getattr(self, 'pending_children', {})
-            self.pending_children[pc] = []
+            self.pending_children[(act, pc)] = []
+            self.pending_volatile[(act, pc)] = []
             body_end = self.block(act, body, pc, s, deadline)
-            kids = self.pending_children.pop(pc)
-            return max([body_end] + kids)
+            kids = self.pending_children.pop((act, pc))
+            end = max([body_end] + kids)
+            self.volatile_children(self.pending_volatile.pop((act, pc)), min(deadline, end))
+            return end
         if k == 'DO':
             child, script, opts = op[1], op[2], (op[3] if len(op) > 3 and op[3] else {})
             if opts.get('after') is not None:
@@ -114,16 +126,19 @@ class Model:
             # innermost enclosing scope op of this activity = longest pc prefix in pending_children
             owner = None
             for n in range(len(pc) - 1, 0, -1):
-                if pc[:n] in self.pending_children:
-                    owner = pc[:n]
+                if (act, pc[:n]) in self.pending_children:
+                    owner = (act, pc[:n])
                     break
             if owner is None:
                 raise Invalid('DO outside a scope')
+            if opts.get('volatile'):
+                # closed when its scope ends: modelled once that time is known
+                self.pending_volatile[owner].append((child, script, cs))
+                return s
             self.begins[child] = (cs, deadline)
             ce = self.block(child, script, (), cs, deadline)
             self.ends[child] = ce
-            if not opts.get('volatile'):
-                self.pending_children[owner].append(ce)
+            self.pending_children[owner].append(ce)
             return s
         raise ValueError('clock model does not know %r' % (k,))
 
